@@ -21,6 +21,14 @@ structure DSt where
   m : St
   sp : Spec
   ths : List Thread
+  /-- fact: Event.EventTime comes from the clock; keys whose record carries client-supplied CreatedAt / UpdatedAt -/
+  stampFromClock : Bool := true
+  metaKeys : List String := []
+  /-- mode late: fact (SummonSwamp looks for subscribers after storing the instance), the parked first request, and
+      the subscribers that were there before the swamp started loading -/
+  checksAfterStore : Bool := true
+  latePending : Option (String × String × String) := none
+  lateSubs : List Nat := []
 
 def showVal : Val → String
   | .str s => "s." ++ s
@@ -32,11 +40,13 @@ def timeTok : TimeConv → String
   | .unixSplit => "ok"
   | .unknown => "bad"
 
-def showEvent (tc : TimeConv) (e : Event) : String :=
+def showEvent (tc : TimeConv) (badKeys : List String) (e : Event) : String :=
+  -- a NEW / MODIFIED event stamped from the record's metadata carries whatever instant the client supplied
+  let tt := if e.kind != .del && badKeys.contains e.key then "bad" else timeTok tc
   match e.kind with
-  | .new => s!"N:{e.key}={showVal e.val}@{timeTok tc}"
-  | .mod => s!"M:{e.key}={showVal e.val}<{match e.old with | some o => showVal o | none => "nil"}@{timeTok tc}"
-  | .del => s!"D:{e.key}={showVal e.val}@{timeTok tc}"
+  | .new => s!"N:{e.key}={showVal e.val}@{tt}"
+  | .mod => s!"M:{e.key}={showVal e.val}<{match e.old with | some o => showVal o | none => "nil"}@{tt}"
+  | .del => s!"D:{e.key}={showVal e.val}@{tt}"
 
 def showStatus (op : Op) (st : Status) (m' : St) : String :=
   match op, st with
@@ -54,17 +64,24 @@ def showStatus (op : Op) (st : Status) (m' : St) : String :=
 
 def sortNat (l : List Nat) : List Nat := (l.toArray.qsort (· < ·)).toList
 
-def seqReply (d : DSt) (op : Op) : DSt × String :=
+def seqReply (d : DSt) (op : Op) (withMeta : Bool := false) : DSt × String :=
   let (m', st, evs) := stepM d.cfg d.m op
   let (sp', sevs) := stepS d.sp op
   let subs := sortNat d.m.subs
-  let body := subs.foldl (fun acc i => acc ++ s!" s{i}=[{";".intercalate (evs.map (showEvent d.timeConv))}]") ""
+  let metaKeys := match op with
+    | .set k _ => if withMeta && !d.metaKeys.contains k then d.metaKeys ++ [k] else d.metaKeys
+    | .del k => d.metaKeys.filter (· != k)
+    | .shift k => d.metaKeys.filter (· != k)
+    | _ => d.metaKeys
+  let badKeys := if d.stampFromClock then [] else metaKeys
+  let body := subs.foldl (fun acc i => acc ++ s!" s{i}=[{";".intercalate (evs.map (showEvent d.timeConv badKeys))}]") ""
   let delivered := !subs.isEmpty
   let flags :=
+    (if delivered && evs.any (fun e => e.kind != .del && badKeys.contains e.key) then "\t#F:C19-event-time-from-record-metadata" else "") ++
     (if delivered && !evs.isEmpty && d.timeConv == .unixSec then "\t#F:C19-event-time-nanos-as-seconds" else "") ++
     (if delivered && evs.length != sevs.length then "\t#F:C19-noop-save-emits-event" else "") ++
     (if delivered && evs.length == sevs.length && evs != sevs then "\t#F:C19-old-treasure-is-live-object" else "")
-  ({ d with m := m', sp := sp' }, s!"st={showStatus op st m'}{body}{flags}")
+  ({ d with m := m', sp := sp', metaKeys := metaKeys }, s!"st={showStatus op st m'}{body}{flags}")
 
 def concState (d : DSt) (ths : List Thread) : String × Nat :=
   let sq := (ths.filter (·.state == "sq")).length
@@ -76,12 +93,34 @@ def concState (d : DSt) (ths : List Thread) : String × Nat :=
 def step (d : DSt) (line : String) : DSt × String :=
   match words line with
   | ["case", _, mode] =>
-    ({ d with mode := mode, m := St.init, sp := Spec.init, ths := [] }, line)
+    ({ d with mode := mode, m := St.init, sp := Spec.init, ths := [], metaKeys := [], latePending := none, lateSubs := [] }, line)
   | ["case", _, mode, _] =>
-    ({ d with mode := mode, m := St.init, sp := Spec.init, ths := [] }, line)
-  | ["case", _] => ({ d with mode := "", m := St.init, sp := Spec.init, ths := [] }, line)
+    ({ d with mode := mode, m := St.init, sp := Spec.init, ths := [], metaKeys := [], latePending := none, lateSubs := [] }, line)
+  | ["case", _] => ({ d with mode := "", m := St.init, sp := Spec.init, ths := [], metaKeys := [] }, line)
   | ws =>
-    if d.mode == "seq" then
+    if d.mode == "late" then
+      match ws with
+      | ["sub", i] => match i.toNat? with
+        | some n => let r := seqReply d (.sub n); (r.1, "ok")
+        | none => (d, "bad-op")
+      | ["spawn", t, "set", k, v] =>
+        if d.latePending.isSome then (d, "bad-op") else
+        ({ d with latePending := some (t, k, v), lateSubs := d.m.subs }, s!"{t}@loading")
+      | ["go", t] =>
+        match d.latePending with
+        | some (t', k, v) =>
+          if t != t' then (d, "bad-op") else
+          -- with the look-before-load order sending is switched on only if somebody was subscribed before the load
+          -- (sending is per swamp: if anybody was subscribed before the load, everybody is served)
+          let missed := !d.checksAfterStore && d.lateSubs.isEmpty && !d.m.subs.isEmpty
+          let (d1, r) := seqReply { d with latePending := none } (.set k (.str v))
+          if missed then
+            let body := (sortNat d.m.subs).foldl (fun acc i => acc ++ s!" s{i}=[]") ""
+            (d1, s!"{t} done st=NEW{body}\t#F:C19-subscribe-during-load-misses-events")
+          else (d1, s!"{t} done {r}")
+        | none => (d, "bad-op")
+      | _ => (d, "bad-op")
+    else if d.mode == "seq" then
       match ws with
       | ["sub", i] => match i.toNat? with
         | some n => let r := seqReply d (.sub n); (r.1, "ok")
@@ -90,6 +129,7 @@ def step (d : DSt) (line : String) : DSt × String :=
         | some n => let r := seqReply d (.unsub n); (r.1, "ok")
         | none => (d, "bad-op")
       | ["set", k, v] => seqReply d (.set k (.str v))
+      | ["setm", k, v] => seqReply d (.set k (.str v)) true
       | ["inc", k, n] => match n.toInt? with
         | some i => seqReply d (.inc k i)
         | none => (d, "bad-op")
@@ -134,7 +174,8 @@ def run (args : List String) : IO UInt32 := do
   let cfg : Cfg := { resetsChangedFlags := arg kv "resetsChangedFlags" == "yes",
                      oldIsLive := arg kv "oldIsLive" != "no" }
   lineLoop step { cfg := cfg, timeConv := tc, mutex := arg kv "sendUnderMutex" == "yes", mode := "",
-                  m := St.init, sp := Spec.init, ths := [] }
+                  m := St.init, sp := Spec.init, ths := [], stampFromClock := arg kv "eventTimeFromClock" != "no",
+                  checksAfterStore := arg kv "checksSubscribersAfterStore" != "no" }
   return 0
 
 end Driver.C19
